@@ -408,7 +408,7 @@ class Machine:
     MAX_STEPS = 400000
     LOOP_LIMIT = 2
 
-    def __init__(self, facts, summaries=(), models=None, stop_at=(), on_event=None, havoc_loops=False):
+    def __init__(self, facts, summaries=(), models=None, stop_at=(), on_event=None, havoc_loops=False, split_on=()):
         from . import models as modelmod
         self.facts = facts
         self.ptr_bits = facts.ptr_bits
@@ -423,6 +423,7 @@ class Machine:
         self.entered = set()
         self.havoc_loops = havoc_loops
         self.loop_info = None
+        self.split_on = frozenset(split_on)      # branch conditions that must stay separate paths (no if-conversion)
         self.drop_adts = {f["impl_of"]["self_ty"].get("path") for f in facts.fns.values()
                           if f.get("impl_of") and f["impl_of"].get("trait") == "std::ops::Drop"}
 
@@ -560,7 +561,8 @@ class Machine:
             if sub is not None and all(len(r) == 1 for r in results):
                 ends = [r[0] for r in results]
                 if all(s.status == "running" and len(s.frames) == depth and s.frames[-1].block == ipd and
-                       len(s.trace) == len(st.trace) and len(s.constructed) == len(st.constructed) for s in ends):
+                       len(s.trace) == len(st.trace) and len(s.constructed) == len(st.constructed) for s in ends) \
+                        and not self.must_split(cond, arms):
                     merged = self.merge(st, cond, arms, ends)
                     if merged is not None:
                         st = merged
@@ -574,6 +576,16 @@ class Machine:
                 for s in r:
                     out.extend(self.run(s, stop))
             return out
+
+    def must_split(self, cond, arms):
+        if not self.split_on:
+            return False
+        forms = [cond, not_(cond)]
+        for v, _ in arms:
+            if isinstance(v, int) and cond.w:
+                forms.append(cmpop("eq", cond, const(v, cond.w)))
+                forms.append(cmpop("ne", cond, const(v, cond.w)))
+        return any(f in self.split_on for f in forms)
 
     def compute_loop_info(self, body):
         """header block -> set of locals that may be assigned inside the natural loop (havocked on entry)."""
